@@ -1,5 +1,7 @@
 import Props.C10b
+import Props.C10c
 #print axioms C10.linear_roundtrip
 #print axioms C10.alias_roundtrip
 #print axioms C10.roundtrip_pow
 #print axioms C10.power_law_roundtrip
+#print axioms C10.log_roundtrip
